@@ -18,5 +18,6 @@ for q in $P "$@"; do
   fi
 done
 git -C /repo checkout -- .
+python3 /verif/tools/gen_tables.py >/dev/null   # the generated tables follow the restored source
 rm -rf /verif/evidence; mv /verif/.build/evidence.bak /verif/evidence
 git -C /repo status --short
